@@ -640,35 +640,66 @@ func exportSections(c *Ctx) {
 	r.Floor("exported enterprise genesis fields", n, 8)
 }
 
-// exportGenesisArgs: what ExportGenesis hands to NewGenesisState comes from the right sections:
-// the id counter field from the counter section (not from the registrations), params from params.
+// builtFields: the fields of the struct a returned alternative was built with — the stores into the fresh allocation
+// where it was made, overlaid by the stores made through the pointer in every caller it was handed up through
+// (`state := types.DefaultGenesisState(); state.Params = k.GetParams(ctx); return state`). ok=false when the
+// alternative is not a fresh allocation (the value cannot be judged field by field).
+func builtFields(c *Ctx, a retAlt) (map[string]*ir.Expr, bool) {
+	w := c.W
+	v := a.V
+	if u, ok := v.(*ssa.UnOp); ok && u.Op == token.MUL {
+		v = u.X
+	}
+	al, ok := v.(*ssa.Alloc)
+	if !ok {
+		return nil, false
+	}
+	fields := map[string]*ir.Expr{}
+	collect := func(ctx *ir.FCtx, base ssa.Value) {
+		if base.Referrers() == nil {
+			return
+		}
+		level := map[string]*ir.Expr{}
+		for _, r := range *base.Referrers() {
+			fa, ok := r.(*ssa.FieldAddr)
+			if !ok || fa.Referrers() == nil {
+				continue
+			}
+			for _, rr := range *fa.Referrers() {
+				st, ok := rr.(*ssa.Store)
+				if !ok || st.Addr != ssa.Value(fa) {
+					continue
+				}
+				e := w.ExprOf(st.Val)
+				if ctx != a.root {
+					e = ctx.Apply(e)
+				}
+				name := ir.FieldName(fa.X.Type(), fa.Field)
+				if old, dup := level[name]; dup {
+					e = &ir.Expr{Op: "phi", Args: []*ir.Expr{old, e}}
+				}
+				level[name] = e
+			}
+		}
+		for k, e := range level {
+			fields[k] = e
+		}
+	}
+	collect(a.Pos.Ctx, al)
+	for ctx := a.Pos.Ctx; ctx != nil && ctx.Call != nil; ctx = ctx.Up {
+		if cv, ok := ctx.Call.(*ssa.Call); ok {
+			collect(ctx.Up, cv)
+		}
+	}
+	return fields, true
+}
+
+// exportGenesisArgs: every genesis state ExportGenesis can return (each return alternative, through whatever
+// constructor or helper it was built by) takes its fields from the right sections: the id counter field from the
+// counter section (not a constant, not the registrations), params from the params section.
 func exportGenesisArgs(c *Ctx, rule string, onlyStartID bool) {
 	w, r := c.W, c.R
 	for _, m := range []string{"wrkchain", "beacon", "stream"} {
-		ctor := w.LookupFunc("x/" + m + "/types.NewGenesisState")
-		if ctor == nil {
-			r.Undecided("A7.export-fields", m+"|ctor", "", "types.NewGenesisState exists", "not found")
-			continue
-		}
-		// field <- parameter index, from the constructor's own stores
-		fieldOfParam := map[int]string{}
-		for _, b := range ctor.Blocks {
-			for _, in := range b.Instrs {
-				st, ok := in.(*ssa.Store)
-				if !ok {
-					continue
-				}
-				fa, ok := st.Addr.(*ssa.FieldAddr)
-				if !ok {
-					continue
-				}
-				for i, p := range ctor.Params {
-					if st.Val == ssa.Value(p) {
-						fieldOfParam[i] = ir.FieldName(fa.X.Type(), fa.Field)
-					}
-				}
-			}
-		}
 		secHigh := ""
 		for _, rm := range recMods {
 			if rm.M == m {
@@ -676,54 +707,84 @@ func exportGenesisArgs(c *Ctx, rule string, onlyStartID bool) {
 			}
 		}
 		n := 0
-		for _, root := range w.Roots["EXPORTGEN:"+m] {
-			for f := range w.Reachable([]*ssa.Function{root}) {
-				if ir.ModuleOf(f) != m {
+		// the export functions: the functions of the module on the export route that return the module's genesis
+		// state and are not merely helpers of another such function
+		var exporters []*ssa.Function
+		isGS := func(f *ssa.Function) bool {
+			rs := f.Signature.Results()
+			return rs.Len() >= 1 && strings.HasSuffix(ptrElem(rs.At(0).Type()).String(), "x/"+m+"/types.GenesisState")
+		}
+		reach := w.Reachable(w.Roots["EXPORTGEN:"+m])
+		for f := range reach {
+			if ir.ModuleOf(f) != m || w.IsGenerated(f) || !isGS(f) {
+				continue
+			}
+			top := true
+			for _, ed := range w.Callers(f) {
+				if _, in := reach[ed.From]; in && isGS(ed.From) && ed.From != f {
+					top = false
+				}
+			}
+			if top {
+				exporters = append(exporters, f)
+			}
+		}
+		sortFuncs(exporters)
+		for _, root := range exporters {
+			for ai, a := range returnAlts(c, root, 0) {
+				suffix := ""
+				if ai > 0 {
+					suffix = fmt.Sprintf("#%d", ai+1)
+				}
+				if !strings.HasSuffix(ptrElem(a.V.Type()).String(), "types.GenesisState") {
 					continue
 				}
-				for _, b := range f.Blocks {
-					for _, in := range b.Instrs {
-						call, ok := in.(*ssa.Call)
-						if !ok || call.Common().StaticCallee() != ctor {
-							continue
+				fields, ok := builtFields(c, a)
+				if !ok {
+					r.Undecided("A7.export-fields", m+"|GenesisState"+suffix, pos(c, a.Pos.In), "the exported genesis state is built where it can be read field by field", "returned "+a.E.String())
+					continue
+				}
+				// the fields the type has: an unset one is its zero value
+				var names []string
+				if st, ok := ptrElem(a.V.Type()).Underlying().(*types.Struct); ok {
+					for i := 0; i < st.NumFields(); i++ {
+						names = append(names, st.Field(i).Name())
+					}
+				}
+				for _, field := range names {
+					raw := fields[field]
+					if raw == nil {
+						raw = &ir.Expr{Op: "zero"}
+					}
+					e := w.Expand(raw, 3)
+					secs := map[string]bool{}
+					e.Walk(func(x *ir.Expr) bool {
+						if x.Op == "state" {
+							secs[x.Name] = true
 						}
-						for i, a := range call.Common().Args {
-							field := fieldOfParam[i]
-							e := w.Expand(w.ExprOf(a), 3)
-							secs := map[string]bool{}
-							e.Walk(func(x *ir.Expr) bool {
-								if x.Op == "state" {
-									secs[x.Name] = true
-								}
-								return true
-							})
-							switch {
-							case field == "Params" && !onlyStartID:
-								n++
-								r.Require(secs[secParams(m)] && len(secs) == 1, "A7.export-fields", m+"|GenesisState.Params", pos(c, in), "exported Params are the stored module params", e.String())
-							case strings.HasPrefix(field, "Starting"):
-								n++
-								okv := secs[secHigh] && len(secs) == 1
-								for _, alt := range e.Alts() {
-									if alt.Op == "const" {
-										continue
-									}
-									if !alt.Any(func(x *ir.Expr) bool { return x.Op == "state" && x.Name == secHigh }) {
-										okv = false
-									}
-								}
-								r.Require(okv, rule, m+"|GenesisState."+field, pos(c, in), "the exported starting id is the stored id counter (the next unused id), so that import never re-issues an id", field+" = "+e.String())
+						return true
+					})
+					switch {
+					case field == "Params" && !onlyStartID:
+						n++
+						r.Require(secs[secParams(m)] && len(secs) == 1, "A7.export-fields", m+"|GenesisState.Params"+suffix, pos(c, a.Pos.In), "exported Params are the stored module params", e.String())
+					case strings.HasPrefix(field, "Starting"):
+						n++
+						okv := secs[secHigh] && len(secs) == 1
+						for _, alt := range e.Alts() {
+							if !alt.Any(func(x *ir.Expr) bool { return x.Op == "state" && x.Name == secHigh }) {
+								okv = false
 							}
 						}
+						r.Require(okv, rule, m+"|GenesisState."+field+suffix, pos(c, a.Pos.In), "the exported starting id is the stored id counter (the next unused id) on every way the exported state is built, so that import never re-issues an id", field+" = "+e.String()+" (state built via "+strings.Join(a.Pos.Ctx.Chain(), " -> ")+")")
 					}
 				}
 			}
 		}
-		// (one NewGenesisState call is enough: the separate call for an empty registry is an early return some versions have)
 		fl := map[string]int{"wrkchain": 2, "beacon": 2, "stream": 1}
 		if onlyStartID {
 			fl = map[string]int{"wrkchain": 1, "beacon": 1, "stream": 0}
 		}
-		r.Floor("NewGenesisState arguments checked on the "+m+" export route", n, fl[m])
+		r.Floor("exported genesis state fields checked on the "+m+" export route", n, fl[m])
 	}
 }
